@@ -26,7 +26,7 @@ CLAUSES = ['3a', '3b_in_Ml', '3b_pref', '3c', '3b_tie_not_strict', '3c_tie_not_s
 
 def plan(tier):
     return {'cases_per_shard': 340 if tier == 'quick' else 8000,
-            'time_cap_s': 45 if tier == 'quick' else 560}
+            'time_cap_s': 90 if tier == 'quick' else 560}
 
 
 def run_case(cs, ctx):
